@@ -37,7 +37,7 @@ Definition me_view (e : x_mentry) :=
   (me_item e, me_offset e, me_length e, me_is_user e, me_is_virtual_disk e, me_is_required e).
 Definition pl_view (l : x_locator) := (pl_type l, pl_entries l).
 Definition x_meta_view (m : x_meta) :=
-  (xh_view (xm_header m), xh_view (fst (xm_headers m)), xh_view (snd (xm_headers m)),
+  (0, xh_view (xm_header m), xh_view (fst (xm_headers m)), xh_view (snd (xm_headers m)),
    map rg_view (xm_regions1 m), map rg_view (xm_regions2 m), map me_view (xm_mentries m),
    (xm_size m, xm_block_size m, xm_has_parent m, xm_sector_size m, xm_id m),
    option_map pl_view (xm_locator m), xm_bat_offset m).
